@@ -2,7 +2,8 @@
 (* C18 (1): a struct parameter and its member parameters agree member by     *)
 (* member after every operation (frappy/extparams.py StructParam).           *)
 (*                                                                           *)
-(* hw  : what the (faithful) hardware holds, per member                      *)
+(* hw  : what the hardware holds, per member (it clips at HwMax and reports   *)
+(*       the stored value, as real devices round or clip)                    *)
 (* mem : cached value of the member parameters                               *)
 (* str : cached value of the struct parameter, per member                    *)
 (* The update stream is not a separate variable: the property demands that   *)
@@ -18,7 +19,8 @@
 EXTENDS Naturals, FiniteSets, TLC
 
 CONSTANTS Members,    \* member names (strings)
-          Vals        \* values (small naturals) used by operations
+          Vals,       \* values (small naturals) used by operations
+          HwMax       \* the hardware stores Min(v, HwMax) and answers with what it stored
 
 VARIABLES hw, mem, str
 svars == <<hw, mem, str>>
@@ -26,6 +28,7 @@ svars == <<hw, mem, str>>
 AllVals == Vals \cup {0}
 Fn == [Members -> AllVals]
 Const(v) == [m \in Members |-> v]
+Store(v) == IF v > HwMax THEN HwMax ELSE v
 
 SInit == /\ hw = Const(0)
          /\ mem = hw /\ str = hw      \* after the start-up poll the cache shows the hardware
@@ -35,11 +38,11 @@ Others(m, f, keep, fresh) ==
     \A k \in Members \ {m} : f[k] \in {keep[k], fresh[k]}
 
 WriteStruct(v) ==            \* v \in Fn: change <struct> / write_<struct>(v)
-    /\ hw' = v /\ mem' = v /\ str' = v
+    /\ hw' = [m \in Members |-> Store(v[m])] /\ mem' = hw' /\ str' = hw'
 
 WriteMember(m, v) ==         \* change <member> / write_<member>(v)
-    /\ hw' \in {h \in Fn : h[m] = v /\ Others(m, h, hw, str)}
-    /\ mem' \in {f \in Fn : f[m] = v /\ Others(m, f, mem, hw')}
+    /\ hw' \in {h \in Fn : h[m] = Store(v) /\ Others(m, h, hw, str)}
+    /\ mem' \in {f \in Fn : f[m] = Store(v) /\ Others(m, f, mem, hw')}
     /\ str' = mem'
 
 ReadStruct ==                \* read <struct> / read_<struct>()
@@ -70,7 +73,7 @@ TypeOK == hw \in Fn /\ mem \in Fn /\ str \in Fn
 Agree == \A m \in Members : str[m] = mem[m]
 (* a value written through either path is what the hardware holds and the cache shows *)
 WriteLands == [][\A m \in Members, v \in Vals :
-                   WriteMember(m, v) => (hw'[m] = v /\ mem'[m] = v /\ str'[m] = v)]_svars
+                   WriteMember(m, v) => (hw'[m] = Store(v) /\ mem'[m] = hw'[m] /\ str'[m] = hw'[m])]_svars
 (* a complete read makes cache and hardware equal *)
 ReadShowsHw == [][ReadStruct => (mem' = hw /\ str' = hw)]_svars
 (* only writes touch the hardware *)
